@@ -695,12 +695,12 @@ func ruleOPT14(c *Ctx) {
 		if callee == nil || callee.Pkg == nil || callee.Pkg.Pkg.Path() != "reflect" {
 			continue
 		}
-		switch callee.Name() {
+		switch publicName(callee) {
 		case "Zero", "New", "ValueOf", "NewAt", "MakeSlice", "MakeMap", "Indirect":
-			if callee.Name() == "Indirect" {
+			if publicName(callee) == "Indirect" {
 				continue // Indirect(v) is v.Elem() for a pointer
 			}
-			made = "reflect." + callee.Name() + " at " + p.InstrPos(ci.(ssa.Instruction))
+			made = "reflect." + publicName(callee) + " at " + p.InstrPos(ci.(ssa.Instruction))
 		}
 	}
 	c.Check(made == "", "GetValueElem / returns only what it was given, unwrapped", p.Pos(gve.Pos()), "no value is manufactured inside (reflect.Zero, New, ValueOf, ...)", "GetValueElem makes a value of its own ("+made+"): a nil pointer or an empty interface operand becomes an ordinary zero value, every operator then computes with it, and the evaluation that should fail and be reported succeeds")
